@@ -11,6 +11,7 @@ INSTALL = [sched.install]
 ENGINE_CFG = {"unwind": {P + "randInt31": 3, P + "randInt63": 3}, "unwind_silent": [P + "randInt31", P + "randInt63"]}
 HARNESSES = [
     {"name": "randintn31", "fn": P + "VerifC15RandIntn31", "bounds": "every n in [1, 2^31-1], every random byte string, <= 3 draws"},
+    {"name": "threshold", "fn": P + "VerifC15Threshold", "bounds": "every n in [1, 2^12]", "timeout_quick": 120},
     {"name": "randintn63", "fn": P + "VerifC15RandIntn63", "bounds": "every n > 2^31-1, <= 3 draws"},
 ]
 for (k, n, th) in [(0, 3, False), (2, 0, False), (2, 2, False), (2, 4, False), (3, 2, False), (3, 5, True), (4, 6, True)]:
@@ -19,3 +20,6 @@ ASSUMPTIONS = ["crypto/rand.Read delivers arbitrary bytes (every generator outpu
                "NOT DECIDED: uniformity of the reservoir sample over subsets (a counting/probability statement) - only the per-draw accepted-range lemma and distinctness are decided",
                "NOT COVERED: the path-assignment loop of client.MeasureClockOffsetSCION (sticky interleaved paths, filter reset, errNoPath, FTM over the participants)"]
 EXPLANATION = ""
+CLAIMED = True
+LEVEL_TEXT = "Bounded model checking of the real random-index and reservoir-sampling code with crypto/rand delivering arbitrary bytes (so every generator output is covered): RandIntn stays in [0, n) for every n, the rejection threshold leaves an accepted range that is a multiple of n minus one value (n <= 2^12), Sample returns min(k, n) picks with every destination and source in range and pairwise distinct final slots."
+LEVEL_NOTE = "NOT decided: uniformity of the sample over subsets (a probability statement; a mutant that draws from the wrong range with every single outcome still legal is not detectable by satisfiability) and the path-assignment loop of MeasureClockOffsetSCION (sticky interleaved paths, filter reset, errNoPath, FTM over participants) - not built; rejection loops cut after 3 draws."
